@@ -256,7 +256,7 @@ def execute(case):
 
 def _collect_kill_texts(ret, texts):
     if ret[0] == 'kill':
-        texts.add(ret[1] or '')
+        texts.add('' if ret[1] == '__nomsg__' else (ret[1] or ''))
     elif ret[0] == 'branch':
         for sub in list(ret[2].values()) + [ret[3]]:
             _collect_kill_texts(sub, texts)
